@@ -6,4 +6,5 @@ CONSTANTS
 SPECIFICATION Spec
 INVARIANT NeverStale
 INVARIANT QueryTotal
+INVARIANT Isolated
 INVARIANT ModelFollows
